@@ -1,32 +1,67 @@
 #!/usr/bin/env python3
-"""Extract the final report of every finished builder sub-session into /verif/reports/<name>.md"""
+"""Extract the reports of every builder / seeding sub-session into /verif/reports/<name>.md.
+A session that was resumed several times has several reports (one per round); all are kept, in order."""
 import json, glob, os, re
 TASKS = '/tmp/claude-0/-verif/efab8dc7-9502-4121-b2b9-c941fe655e2b/tasks'
 os.makedirs('/verif/reports', exist_ok=True)
+
+
+def text_of(content):
+    if isinstance(content, str):
+        return content
+    if isinstance(content, list):
+        return '\n'.join(c.get('text', '') for c in content if isinstance(c, dict) and c.get('type') == 'text').strip()
+    return ''
+
+
+def is_prompt(content):
+    """a user message that is a prompt (first task or a follow-up), not a tool result"""
+    if isinstance(content, str):
+        return bool(content.strip())
+    if isinstance(content, list):
+        return any(isinstance(c, dict) and c.get('type') == 'text' and c.get('text', '').strip() for c in content) and \
+            not any(isinstance(c, dict) and c.get('type') == 'tool_result' for c in content)
+    return False
+
+
 for f in glob.glob(TASKS + '/a*.output'):
-    first_user = None; last_text = None
+    first_user = None
+    last_text = None
+    rounds = []
     for line in open(f):
-        try: o = json.loads(line)
-        except Exception: continue
-        if not isinstance(o, dict): continue
+        try:
+            o = json.loads(line)
+        except Exception:
+            continue
+        if not isinstance(o, dict):
+            continue
         msg = o.get('message') or {}
-        if not isinstance(msg, dict): continue
-        role = msg.get('role'); content = msg.get('content')
-        if role == 'user' and first_user is None:
-            first_user = content if isinstance(content, str) else ' '.join(c.get('text','') for c in content if isinstance(c, dict) and c.get('type')=='text')
-        if role == 'assistant' and isinstance(content, list):
-            t = '\n'.join(c.get('text','') for c in content if isinstance(c, dict) and c.get('type')=='text').strip()
-            if t: last_text = t
-    if not first_user or not last_text or len(last_text) < 1500:
+        if not isinstance(msg, dict):
+            continue
+        role, content = msg.get('role'), msg.get('content')
+        if role == 'user' and is_prompt(content):
+            if first_user is None:
+                first_user = text_of(content)
+            elif last_text:
+                rounds.append(last_text)
+            last_text = None
+        if role == 'assistant':
+            t = text_of(content)
+            if t:
+                last_text = t
+    if last_text:
+        rounds.append(last_text)
+    rounds = [r for r in rounds if len(r) >= 600]
+    if not first_user or not rounds:
         continue
     if 'builder_common.md' in first_user:
-        m = re.search(r'YOUR PROPERT(?:Y|IES):\s*(C\d\d)(?:[^C]{0,200}?\b(C\d\d)\b)?', first_user)
         ids = re.findall(r'\bC\d\d\b', first_user.split('YOUR PROPERT')[1][:400])
-        name = 'build-' + '-'.join(dict.fromkeys(ids[:1] + [i for i in ids[1:3] if i in first_user.split('You own')[0][:600]]))
         name = 'build-' + ids[0]
     else:
-        m = re.search(r'prompt-(C\d\d)\.md', first_user)
-        if not m: continue
-        name = 'seed-' + m.group(1)
-    open(f'/verif/reports/{name}.md', 'w').write(last_text + '\n')
-    print(name, len(last_text))
+        m = re.search(r'prompt(\d?)-(C\d\d)\.md', first_user)
+        if not m:
+            continue
+        name = 'seed' + m.group(1) + '-' + m.group(2)
+    body = '\n\n'.join((f'## Report of round {i + 1}\n\n' if len(rounds) > 1 else '') + r for i, r in enumerate(rounds))
+    open(f'/verif/reports/{name}.md', 'w').write(body + '\n')
+    print(name, len(rounds), len(body))
